@@ -20,16 +20,19 @@ Record write_frame (s : sys) (a : N) (s' : sys) : Prop := mkWF {
   WF_pla : o_ppuLastAccess (s_oam s') = o_ppuLastAccess (s_oam s);
   WF_dww : dww (s_oam s) -> dww (s_oam s');
   WF_flags : ~ (0xFE00 <= a /\ a <= 0xFEFF) -> oam_flags_eq (s_oam s) (s_oam s');
-  WF_lcd : a <> 0xFF40 -> p_enabled (s_ppu s') = p_enabled (s_ppu s)
+  WF_lcd : a <> 0xFF40 -> p_enabled (s_ppu s') = p_enabled (s_ppu s);
+  WF_cor : a <> 0xFF40 -> o_corrupt (s_oam s') = o_corrupt (s_oam s);
+  WF_mem : forall i, 0xFE00 + i <> a -> Mem.get (o_mem (s_oam s')) i = Mem.get (o_mem (s_oam s)) i;
+  WF_flags_closed : o_corrupt (s_oam s) = false -> oam_flags_eq (s_oam s) (s_oam s')
 }.
 
 Lemma wf_same_oam_ppu s a s' :
   s_crash s' = s_crash s -> s_oam s' = s_oam s -> s_ppu s' = s_ppu s -> write_frame s a s'.
-Proof. intros E1 E2 E3. constructor; rewrite ?E1, ?E2, ?E3; auto. intros _. repeat split. Qed.
+Proof. intros E1 E2 E3. constructor; rewrite ?E1, ?E2, ?E3; auto; intros _; repeat split. Qed.
 
 Lemma lcdc_oam_frame p o v :
   let o' := snd (ppu_write_lcdc p o v) in
-  o_ppuLastAccess o' = o_ppuLastAccess o /\ oam_flags_eq o o'.
+  o_ppuLastAccess o' = o_ppuLastAccess o /\ oam_flags_eq o o' /\ o_mem o' = o_mem o.
 Proof.
   unfold ppu_write_lcdc, ppu_enable, ppu_disable, oam_enter_mode2, oam_exit_mode2.
   destruct (tb v 128 && negb (p_enabled p)); [|destruct (negb (tb v 128) && p_enabled p)]; cbn; repeat split.
@@ -42,13 +45,16 @@ Proof.
     try (apply wf_same_oam_ppu; destruct s; reflexivity).
   - destruct (s_ser_attached s); apply wf_same_oam_ppu; destruct s; reflexivity.
   - (* LCDC *)
-    cbv zeta. destruct (lcdc_oam_frame (s_ppu s) (s_oam s) v) as [L1 L2]. cbv zeta in L1, L2.
+    cbv zeta. destruct (lcdc_oam_frame (s_ppu s) (s_oam s) v) as (L1 & L2 & LM). cbv zeta in L1, L2, LM.
     constructor.
     + destruct s; reflexivity.
     + destruct s; exact L1.
     + unfold dww. destruct L2 as (_ & L2 & L3). destruct s; cbn in *. rewrite L2, L3. auto.
     + intros _. destruct s; exact L2.
     + intros X. exfalso. apply X. subst a. reflexivity.
+    + intros X. exfalso. apply X. subst a. reflexivity.
+    + intros i _. destruct s; cbn in *. rewrite LM. reflexivity.
+    + intros _. destruct s; exact L2.
   - constructor; intros; destruct s; try reflexivity; try (repeat split; fail); cbn; auto.
   - constructor; intros; destruct s; try reflexivity; try (repeat split; fail); cbn; auto.
   - constructor; intros; destruct s; try reflexivity; try (repeat split; fail); cbn; auto.
@@ -70,6 +76,17 @@ Proof.
     match type of H with context [put8 ?m ?i ?x] => destruct (put8 m i x) end; cbn [bind] in H; inversion H; subst; cbn; auto.
 Qed.
 
+Lemma oam_write_mem o a v o' : oam_write o a v = Ok o' -> 0xFE00 <= a -> a < 65536 ->
+  forall i, 0xFE00 + i <> a -> Mem.get (o_mem o') i = Mem.get (o_mem o) i.
+Proof.
+  intros Eo L U i Hi. revert Eo. unfold oam_write. set (o1 := if o_corrupt o then _ else _).
+  assert (M1 : o_mem o1 = o_mem o) by (subst o1; destruct (o_corrupt o); [destruct (o_write o)|]; reflexivity).
+  destruct (a <? 0xFEA0) eqn:Ea; [|intros Y; inversion Y; subst; rewrite M1; reflexivity].
+  unfold put8, oam_size. destruct (sub16 a 0xFE00 <? 160) eqn:Es; cbn [bind]; [|discriminate].
+  intros Y; inversion Y; subst. cbn [o_mem set_mem]. rewrite M1. apply Mem.gso.
+  unfold sub16. change 0xFE00 with 65024 in *. lia.
+Qed.
+
 Theorem sys_write_frame s a v s' : a < 65536 -> sys_write s a v = Ok s' -> write_frame s a s'.
 Proof.
   intros Ha. destruct (decoder_ok a Ha) as [_ D]. unfold sys_write.
@@ -89,6 +106,11 @@ Proof.
     + intros Dw. destruct s; cbn in *. eapply oam_write_flags; eassumption.
     + intros X0. exfalso. apply X0. lia.
     + intros _. destruct s; reflexivity.
+    + intros _. destruct s; exact C1.
+    + intros i Hi. assert (E' : s_oam (set_oam o' s) = o') by (destruct s; reflexivity). rewrite E'.
+      apply (oam_write_mem _ _ _ _ Eo); [lia|exact Ha|exact Hi].
+    + intros Hc. assert (E' : s_oam (set_oam o' s) = o') by (destruct s; reflexivity). rewrite E'.
+      destruct (write_keeps_flags _ _ _ _ Hc Eo) as (K1 & K2 & K3). repeat split; assumption.
   - intros X; inversion X; subst. apply reg_write_frame. apply N.eqb_eq. exact D.
   - intros X; inversion X; subst. apply wf_same_oam_ppu; reflexivity.
   - destruct (apu_bus_write_r (s_apu s) a v); cbn [bind]; try discriminate. intros X; inversion X; subst.
